@@ -528,6 +528,20 @@ func (tr *trans) call(v ssa.Value, c *ssa.CallCommon, st State) {
 		tr.uncontracted(v, key, sig, st)
 		return
 	}
+	// call of the closure that a static function just returned (LoadBackend(env)(cmd, args)): the closure's own
+	// contract, with its captured variables bound to the arguments of the outer call
+	if inner, ok := c.Value.(*ssa.Call); ok {
+		if g, binds, ok := tr.returnedClosure(inner); ok {
+			gkey := funcKey(g)
+			if fc := tr.prog.CS.Funcs[gkey]; fc != nil {
+				tr.extraCallVars = binds
+				rs := tr.applyContract(fc, g.Signature, gkey, nil, nil, args, st, pos, nil)
+				tr.extraCallVars = nil
+				tr.setResults(v, rs)
+				return
+			}
+		}
+	}
 	// call through a function value
 	var pureName string
 	if p, ok := c.Value.(*ssa.Parameter); ok {
@@ -652,6 +666,10 @@ func (tr *trans) applyContract(fc *FuncContract, sig *types.Signature, key strin
 		env.vars[n] = env.goSV(*recv, rt)
 		env.vars[n+"0"] = env.vars[n]
 		env.vars["recv"] = env.vars[n]
+	}
+	for n, sv := range tr.extraCallVars {
+		env.vars[n] = sv
+		env.vars[n+"0"] = sv
 	}
 	for i := 0; i < sig.Params().Len() && i < len(args); i++ {
 		p := sig.Params().At(i)
@@ -1412,4 +1430,65 @@ func constantString(c *ssa.Const) string {
 		return u
 	}
 	return s
+}
+
+// returnedClosure: inner is a call of a static function F whose only return hands back `make closure G [cells]`,
+// each cell initialised from a parameter of F. Returns G and the values of G's free variables for this call.
+func (tr *trans) returnedClosure(inner *ssa.Call) (*ssa.Function, map[string]SV, bool) {
+	f := inner.Call.StaticCallee()
+	if f == nil || len(f.Blocks) == 0 || inner.Call.IsInvoke() {
+		return nil, nil, false
+	}
+	var mc *ssa.MakeClosure
+	nret := 0
+	for _, b := range f.Blocks {
+		for _, in := range b.Instrs {
+			if r, ok := in.(*ssa.Return); ok {
+				nret++
+				if len(r.Results) != 1 {
+					return nil, nil, false
+				}
+				m, ok := r.Results[0].(*ssa.MakeClosure)
+				if !ok {
+					return nil, nil, false
+				}
+				mc = m
+			}
+		}
+	}
+	if nret != 1 || mc == nil {
+		return nil, nil, false
+	}
+	g, ok := mc.Fn.(*ssa.Function)
+	if !ok {
+		return nil, nil, false
+	}
+	env := &Env{tr: tr, vc: tr.vc, errs: &tr.errs}
+	binds := map[string]SV{}
+	for i, bv := range mc.Bindings {
+		al, ok := bv.(*ssa.Alloc)
+		if !ok || i >= len(g.FreeVars) {
+			return nil, nil, false
+		}
+		// the cell must be initialised from a parameter of F and nothing else in F
+		var src *ssa.Parameter
+		for _, ref := range *al.Referrers() {
+			if s, ok := ref.(*ssa.Store); ok && s.Addr == al {
+				p, isParam := s.Val.(*ssa.Parameter)
+				if !isParam || src != nil {
+					return nil, nil, false
+				}
+				src = p
+			}
+		}
+		if src == nil {
+			return nil, nil, false
+		}
+		for pi, p := range f.Params {
+			if p == src && pi < len(inner.Call.Args) {
+				binds[g.FreeVars[i].Name()] = env.goSV(tr.val(inner.Call.Args[pi]), p.Type())
+			}
+		}
+	}
+	return g, binds, true
 }
